@@ -71,6 +71,8 @@ class Gen:
         if self._cur_label is not None:
             self._cur_label['gen_end'] = len(self.lines)
             self._cur_label['text'] += text.strip() + ' '
+            if text.strip() and not text.strip().startswith('//'):
+                self._cur_label['has_code'] = True
 
     def close_label(self):
         self._cur_label = None
@@ -89,7 +91,7 @@ class Gen:
         if st.startswith('//@endlabel'):
             self.close_label()
             return
-        if self._cur_label is not None and (st == '' or self.KW.match(st)):
+        if self._cur_label is not None and (st == '' or (self.KW.match(st) and self._cur_label.get('has_code'))):
             self.close_label()
         self.emit(text, origin)
 
@@ -311,7 +313,7 @@ class Gen:
                 n = int(st.split()[1])
                 cur = loops.setdefault(n, [])
             elif st.startswith('//@hint '):
-                m = re.match(r'//@hint\s+(before|after)\s+(.*)$', st)
+                m = re.match(r'//@hint\s+(before|after-block|after)\s+(.*)$', st)
                 cur = []
                 hints.append((m.group(1), m.group(2).strip(), cur, i + 1))
             elif st.startswith('//@rw '):
@@ -390,6 +392,24 @@ class Gen:
             if len(cands) != 1:
                 raise Undecided(f'{fid}: hint anchor /{rx}/ matches {len(cands)} body lines')
             k = cands[0] + (1 if where == 'after' else 0)
+            if where == 'after-block':
+                # after the brace-balanced block opened on the anchor line
+                depth, started, q = 0, False, cands[0]
+                while q < len(body_lines):
+                    t = body_lines[q][0]
+                    code = ''.join(t[a:b] for kk, a, b in rs.tokenize(t) if kk == 'punct')
+                    for ch in code:
+                        if ch == '{':
+                            depth += 1
+                            started = True
+                        elif ch == '}':
+                            depth -= 1
+                    if started and depth <= 0:
+                        break
+                    q += 1
+                if q >= len(body_lines):
+                    raise Undecided(f'{fid}: hint anchor /{rx}/: block does not close')
+                k = q + 1
             body_lines[k:k] = [(t, ('tmpl', path, ln)) for t, ln in hl]
         def emit_copy(twin):
             if twin:
